@@ -611,7 +611,7 @@ bool QXmppStunMessage::decode(const QByteArray &buffer, const QByteArray &key, Q
             errorCode = errorCodeHigh * 100 + errorCodeLow;
             QByteArray phrase(a_length - 4, 0);
             stream.readRawData(phrase.data(), phrase.size());
-            errorPhrase = QString::fromUtf8(phrase);
+            errorPhrase = QString::fromUtf8(phrase.constData(), phrase.size());
 
         } else if (a_type == UseCandidate) {
 
@@ -659,7 +659,7 @@ bool QXmppStunMessage::decode(const QByteArray &buffer, const QByteArray &key, Q
             // REALM
             QByteArray utf8Realm(a_length, 0);
             stream.readRawData(utf8Realm.data(), utf8Realm.size());
-            m_realm = QString::fromUtf8(utf8Realm);
+            m_realm = QString::fromUtf8(utf8Realm.constData(), utf8Realm.size());
             m_attributes << Realm;
 
         } else if (a_type == RequestedTransport) {
@@ -687,7 +687,7 @@ bool QXmppStunMessage::decode(const QByteArray &buffer, const QByteArray &key, Q
             // SOFTWARE
             QByteArray utf8Software(a_length, 0);
             stream.readRawData(utf8Software.data(), utf8Software.size());
-            m_software = QString::fromUtf8(utf8Software);
+            m_software = QString::fromUtf8(utf8Software.constData(), utf8Software.size());
             m_attributes << Software;
 
         } else if (a_type == Username) {
@@ -695,7 +695,7 @@ bool QXmppStunMessage::decode(const QByteArray &buffer, const QByteArray &key, Q
             // USERNAME
             QByteArray utf8Username(a_length, 0);
             stream.readRawData(utf8Username.data(), utf8Username.size());
-            m_username = QString::fromUtf8(utf8Username);
+            m_username = QString::fromUtf8(utf8Username.constData(), utf8Username.size());
             m_attributes << Username;
 
         } else if (a_type == MappedAddress) {
